@@ -1,5 +1,5 @@
 """Facts and rules shared by the AArch64 clauses of C02 / C14."""
-from . import cfg, vbe
+from . import cfg, vbe, narrow
 from .regions import Regions
 
 UNIT = "asmjit/arm/a64assembler.cpp"
@@ -125,3 +125,18 @@ def rule_db(chk, A):
         return
     a64db.run(chk, A)
     a64db.run_opcodes(chk, A)
+
+
+def rule_imm(chk, A):
+    """immediate clauses: 64-bit immediates are range-tested before they are narrowed, and condition codes are bounded by the enum"""
+    emit = A["emit"]
+    n = narrow.run(chk, [emit], rule="R-NARROW-GUARDED", floor=12)
+    f = chk.facts("asmjit/arm/a64assembler.cpp", enums=r"asmjit::arm::CondCode$")
+    en = f["enums"].get("asmjit::arm::CondCode")
+    chk.need(en is not None, "enum arm::CondCode not found")
+    limit = max(v for _, v in en["enumerators"] if v < 256)
+    R = "R-COND-BOUNDED"
+    chk.rule(R, "every 64-bit immediate passed to cond_code_to_opcode_field has, on all paths, an upper bound (from the dominating comparisons, "
+                "`x - c > K` idiom included) not larger than the largest arm::CondCode enumerator: no out-of-range condition is encoded")
+    k = narrow.bounded_sink(chk, R, emit, "cond_code_to_opcode_field", limit, "the largest arm::CondCode")
+    chk.floor(R + ":sinks", k, 4)
